@@ -36,7 +36,7 @@ ASSUMPTIONS = [
     "no I/O error or torn write is injected (nothing is promised after one); CSV/text formats are not decided here",
 ]
 
-NAMES = ["f", "g", "h", "@f", "@g", "obs"]
+NAMES = ["f", "g", "h", "@f", "@g", "obs", "Zeta", "alpha"]  # ("Zeta" < "alpha" in ASCII order, not in case-insensitive order)
 
 
 def canon_value(v):
@@ -323,7 +323,9 @@ def run(ctx):
     else:
         problem = None
         db = Database(input_space=ds)
-    files = [str(ctx.scratch / "a.h5"), str(ctx.scratch / "b.h5")]
+    hist_dir = ctx.scratch / "hist"
+    hist_dir.mkdir(exist_ok=True)
+    files = [str(hist_dir / "a.h5"), str(hist_dir / "b.h5")]
     # the file may already hold another object: a different design space + database at the root or at another node
     prior = t.weighted([3, 1, 1], "file_already_holds")
     if prior:
@@ -415,6 +417,27 @@ def run(ctx):
                 if append and exported[f]:
                     n_append_after_export += 1
                     ctx.probe("append_export_after_earlier_export")
+                if append and t.flag(0.15, "export_fails"):
+                    # injected I/O fault: the directory of the file is unreachable during this export (unmounted share,
+                    # renamed folder); the export raises, nothing is written, and the next export must catch up
+                    away = str(hist_dir) + ".away"
+                    os.rename(str(hist_dir), away)
+                    try:
+                        if problem is not None:
+                            problem.to_hdf(f, append=True)
+                        else:
+                            db.to_hdf(f, append=True, hdf_node_path=node)
+                        raised = False
+                    except Exception:  # noqa: BLE001
+                        raised = True
+                    finally:
+                        if os.path.isdir(str(hist_dir)):
+                            import shutil
+
+                            shutil.rmtree(str(hist_dir))
+                        os.rename(away, str(hist_dir))
+                    ops.append(("export_failed", raised))
+                    ctx.fire("export_io_error")
                 export(f, append)
                 exported[f] = True
                 compare(f, "export")
